@@ -242,3 +242,52 @@ def axiom_canary(res, workdir):
     if vr.get('errors', 0) == 0 and vr.get('verified', 0) >= 1:
         return False, 'canary `ensures false` VERIFIED with axioms %s' % axioms
     return None, 'canary run inconclusive: ' + p.stderr[-300:]
+
+
+def precondition_probes(res, workdir):
+    """Vacuity guard for `requires`: every probe (same signature and precondition, body `unreached()`) must be REJECTED.
+    Returns (ok, detail, n): ok False when some probe verified (contradictory precondition), None when the run was inconclusive."""
+    from . import rustscan as rs
+    g = res.g
+    lem = g.lemma_probes()
+    if not g.probes and not lem:
+        return True, 'no function or lemma of this unit carries a precondition', 0
+    text = g.text_with_probes()
+    path = res.gen_path.replace('.rs', '_probes.rs')
+    with open(path, 'w') as f:
+        f.write(text)
+    mask = rs.code_mask(text)
+    mods = []
+    for mm in rs.find_code(text, mask, r'(?m)^pub mod (\w+) \{'):
+        ob = mm.end() - 1
+        mods.append((mm.group(1), ob, rs.match_close(text, mask, ob)))
+    names = [n for _a, n, _k, _l in g.probes + lem]
+    by_mod = {}
+    for n in names:
+        pos = text.find('fn ' + n + '(')
+        if pos < 0:
+            pos = text.find('fn ' + n)
+        owner = [m for m in mods if m[1] < pos < m[2]]
+        by_mod.setdefault(owner[0][0] if owner else None, []).append(n)
+    ok_of = {}
+    for mod, ns in by_mod.items():
+        if mod is None:
+            return None, 'a probe sits outside every module: %s' % ns, len(names)
+        p = subprocess.run([VERUS, path, '--verify-only-module', mod, '--verify-function', '*zz_probe_*', '--output-json', '--time', '--multiple-errors', '200'],
+                           stdout=subprocess.PIPE, stderr=subprocess.PIPE, text=True, cwd=workdir)
+        try:
+            summary = json.loads(p.stdout[p.stdout.find('{'):])
+            if summary.get('verification-results', {}).get('encountered-vir-error'):
+                return None, 'probe run hit a front-end error: ' + p.stderr[-300:], len(names)
+            for m in summary['times-ms']['smt']['smt-run-module-times']:
+                for fb in m.get('function-breakdown', []):
+                    ok_of[fb['function'].split('::')[-1]] = fb.get('success', True)
+        except Exception:
+            return None, 'probe run produced no summary: ' + p.stderr[-300:], len(names)
+    missing = [n for n in names if n not in ok_of]
+    vac = [n for n in names if ok_of.get(n) is True]
+    if vac:
+        return False, 'precondition probes ACCEPTED (contradictory requires): %s' % vac, len(names)
+    if missing:
+        return None, 'probes not reported by the verifier: %s' % missing[:5], len(names)
+    return True, '%d precondition / hypothesis probes (same `requires`, body `unreached()` resp. `ensures false`) were all rejected, as they must be' % len(names), len(names)
